@@ -889,8 +889,13 @@ def session_boundary(prog, rep, rule="session-boundary"):
     for st in walk_no_nested(enter.node):
         if isinstance(st, (ast.Assign, ast.AnnAssign)):
             tg = st.targets[0] if isinstance(st, ast.Assign) else st.target
-            if isinstance(tg, ast.Attribute) and isinstance(tg.value, ast.Name) and tg.value.id == "self" and st.value is not None \
-                    and any(isinstance(c, ast.Call) and isinstance(c.func, ast.Attribute) and c.func.attr == "open" or isinstance(c, ast.Call) and norm(c.func) == "open" for c in ast.walk(st.value)):
+            val_ = st.value
+            if isinstance(val_, ast.Name):
+                defs_ = [a for a in walk_no_nested(enter.node) if isinstance(a, (ast.Assign, ast.AnnAssign)) and getattr(a, "value", None) is not None
+                         and any(isinstance(t_, ast.Name) and t_.id == val_.id for t_ in (a.targets if isinstance(a, ast.Assign) else [a.target]))]
+                val_ = defs_[0].value if len(defs_) == 1 else val_
+            if isinstance(tg, ast.Attribute) and isinstance(tg.value, ast.Name) and tg.value.id == "self" and val_ is not None \
+                    and any(isinstance(c, ast.Call) and isinstance(c.func, ast.Attribute) and c.func.attr == "open" or isinstance(c, ast.Call) and norm(c.func) == "open" for c in ast.walk(val_)):
                 handles.add(tg.attr)
     if not handles:
         raise AnalysisError("Tdf.__enter__ no longer assigns an opened file to an attribute (anchor vanished)")
